@@ -93,10 +93,24 @@ def guard_verdict(ctx, fi: FuncInfo, node, env: Dict[str, Any], pe: Optional[PEv
     pe = pe or PEval(ctx.world)
     env = dict(env)
 
+    class _Gone(Exception):
+        pass
+
+    def terminates(block):
+        return bool(block) and isinstance(block[-1], (ast.Continue, ast.Break, ast.Return, ast.Raise))
+
     def prefix(stmts):
         for s in stmts:
             if s is node or any(x is node for x in ast.walk(s)):
                 return s
+            if isinstance(s, ast.If) and (terminates(s.body) or terminates(s.orelse)):
+                # an earlier guard clause: `if cond: continue/return` leaves before the point of interest
+                try:
+                    v = bool(pe.truth(pe.eval(s.test, env, fi), s.test))
+                except PEvalUnsupported:
+                    continue
+                if (v and terminates(s.body)) or (not v and terminates(s.orelse)):
+                    raise _Gone()
             if isinstance(s, (ast.Assign, ast.AnnAssign)) and not any(isinstance(t, (ast.Attribute, ast.Subscript)) for t in (s.targets if isinstance(s, ast.Assign) else [s.target])):
                 try:
                     pe.stmt(s, env, fi, 0)
@@ -107,7 +121,10 @@ def guard_verdict(ctx, fi: FuncInfo, node, env: Dict[str, Any], pe: Optional[PEv
     try:
         cur = fi.node.body
         while True:
-            holder = prefix(cur)
+            try:
+                holder = prefix(cur)
+            except _Gone:
+                return False
             if holder is None or holder is node:
                 return True
             if isinstance(holder, ast.If):
